@@ -28,6 +28,10 @@ TLA_CP = "/opt/veriftools/tla/tla2tools.jar:/opt/veriftools/tla/CommunityModules
 NCPU = os.cpu_count() or 4
 
 
+class Hang(Exception):
+    """raised after a hang inside the code under test has been recorded as a violation"""
+
+
 class Infra(Exception):
     """Infrastructure failure: never a verdict (exit 2)."""
 
@@ -146,9 +150,50 @@ class Ctx:
         except subprocess.TimeoutExpired as x:
             raise Infra("driver %s timed out after %ds" % (test, timeout))
         log("[driver] %s rc=%d in %.1fs" % (test, p.returncode, time.time() - t))
+        if "VF-HANG idle=" in p.stdout:
+            self.hang(test, p.stdout)
         if p.returncode != 0 and not allow_fail:
             raise Infra("driver %s failed (rc=%d):\n%s" % (test, p.returncode, p.stdout[-6000:]))
         return p.returncode, p.stdout
+
+    def hang(self, test, out):
+        """The driver's watchdog fired.  If a goroutine of the driver (one with a zz_vf_ frame) has been inside the code
+        under test for a minute or more - its innermost frames are the repository's own files - then a call the driver
+        made never returned: that is an observed behaviour (dead lock, lock never released, endless loop), reported
+        against the property.  Anything else is infrastructure."""
+        dump = out[out.index("VF-HANG idle="):]
+        src = self.srcdir()
+
+        def inside(sample):
+            """goroutine id -> (function, file, line, state) for the driver's goroutines whose innermost frame in the
+            source directory is the repository's own code"""
+            r = {}
+            for blk in re.split(r"\n\n(?=goroutine \d+ )", sample):
+                h = re.match(r"goroutine (\d+) \[([^\]]*)\]", blk.strip())
+                if not h:
+                    continue
+                frames = re.findall(r"^(\S.*)\n\t(\S+\.go):(\d+)", blk, re.M)
+                if not any("zz_vf_" in f for _, f, _ in frames):
+                    continue
+                for fn, f, ln in frames:
+                    if f.startswith(src + "/"):
+                        b = os.path.basename(f)
+                        if "zz_vf_" not in b and not b.endswith("_test.go"):
+                            r[h.group(1)] = (re.sub(r"\([^()]*\)$", "", fn).split("/")[-1][:80], b, ln, h.group(2).split(",")[0])
+                        break
+            return r
+        first, _, second = dump.partition("VF-HANG-SECOND-SAMPLE")
+        a, b = inside(first), inside(second)
+        for g in sorted(a, key=int):
+            if g in b and a[g][:3] == b[g][:3]:
+                fn, f, ln, state = a[g]
+                p = os.path.join(self.scratch, "hang_%s.txt" % test)
+                with open(p, "w") as fh:
+                    fh.write(dump[:400000])
+                self.violation("a call into the code under test never returned: %s (%s:%s) [%s]; the driver had made no progress for %s s" % (
+                    fn, f, ln, state, re.match(r"VF-HANG idle=(\d+)", dump).group(1)), files=[p], tag="hang-" + f)
+                raise Hang()
+        raise Infra("driver %s hung outside the code under test:\n%s" % (test, dump[:6000]))
 
     # -------------------------------------------------------------------- TLC
     def specdir(self):
@@ -449,7 +494,10 @@ def main(pid, fn, level="model_checking"):
             sys.exit(2)
     ctx = Ctx(pid, tier=a.tier, seed=seed, level=level)
     try:
-        fn(ctx, a)
+        try:
+            fn(ctx, a)
+        except Hang:
+            pass
         rc = ctx.finish()
     except Infra as x:
         print("INFRA: property=%s %s" % (pid, x), file=sys.stderr)
